@@ -117,7 +117,7 @@ func VerifyProof(root, key *felt.Felt, proof *ProofNodeSet, hash crypto.HashFn) 
 		return felt.Zero, errors.New("nil proof node set")
 	}
 	// SetFelt keeps the low 251 bits only: a larger felt would be verified as another key
-	if key.Bits()[3]>>(contractClassTrieHeight-192) != 0 {
+	if keyExceedsHeight(key) {
 		return felt.Zero, fmt.Errorf("key %s exceeds the trie height %d", key.String(), contractClassTrieHeight)
 	}
 
@@ -179,13 +179,29 @@ func VerifyProof(root, key *felt.Felt, proof *ProofNodeSet, hash crypto.HashFn) 
 	}
 }
 
+// keyExceedsHeight reports whether the felt has bits above the trie height: SetFelt and
+// FeltToPath keep the low contractClassTrieHeight bits only, such a felt would be taken for another key
+func keyExceedsHeight(key *felt.Felt) bool {
+	return key.Bits()[3]>>(contractClassTrieHeight-192) != 0
+}
+
 // verifyProofData validates the consistency of keys and values
-func verifyProofData(keys, values []*felt.Felt) error {
+func verifyProofData(first *felt.Felt, keys, values []*felt.Felt) error {
 	if len(keys) != len(values) {
 		return fmt.Errorf("inconsistent length of proof data, keys: %d, values: %d", len(keys), len(values))
 	}
 
+	// No key of the trie is 2^251 or more: a range bounded by or listing such a felt claims
+	// nothing about the trie (its low 251 bits would be verified instead)
+	if first != nil && keyExceedsHeight(first) {
+		return fmt.Errorf("first key %s exceeds the trie height %d", first.String(), contractClassTrieHeight)
+	}
+
 	for i := range keys {
+		if keys[i] == nil || keyExceedsHeight(keys[i]) {
+			return fmt.Errorf("key %d of the range is nil or exceeds the trie height %d", i, contractClassTrieHeight)
+		}
+
 		if i < len(keys)-1 && keys[i].Cmp(keys[i+1]) > 0 {
 			return errors.New("keys are not monotonic increasing")
 		}
@@ -284,7 +300,7 @@ func verifyRangeWithProof(rootHash, first, last *felt.Felt, keys, values []*felt
 }
 
 func VerifyRangeProof(rootHash, first *felt.Felt, keys, values []*felt.Felt, proof *ProofNodeSet) (bool, error) {
-	if err := verifyProofData(keys, values); err != nil {
+	if err := verifyProofData(first, keys, values); err != nil {
 		return false, err
 	}
 
